@@ -68,6 +68,9 @@ htk_open	(SF_PRIVATE *psf)
 
 		psf->endian = SF_ENDIAN_BIG ;
 
+		if (psf->sf.samplerate < 1)
+			return SFE_BAD_SF_INFO ;
+
 		if (htk_write_header (psf, SF_FALSE))
 			return psf->error ;
 
